@@ -7,14 +7,14 @@ VERIF = os.path.dirname(os.path.dirname(os.path.abspath(__file__)))
 
 TB = (
     "Sampling, not enumeration. Trusted: the reference model (one parent pointer per node, Python built-ins), the "
-    "statement-level scans of the live structure, miniprotoc (stand-in for protoc), the uuid4/iteration-order/file seams."
+    "statement-level scans of the live structure, miniprotoc (stand-in for protoc), the uuid4 / iteration-order / node-hash / byte-stream seams."
 )
 
 CHECKS = {
     "C03": dict(
         section="3/C03",
         technique="deterministic simulation: seeded ownership histories over several IRs; invariant after every step (UUID table == reachable set, probed with every UUID ever seen); ddmin-minimised replay",
-        text="Seeded search over ownership histories (both ends of all six containment relations, subtree moves across IRs, constructor arguments, failing bulk operations, set-iteration order permuted by the scheduler). After every step every IR's get_by_uuid is compared with the reachable set computed by walking the public collections. Exploration is the right level: the property quantifies over histories, which can only be sampled.",
+        text="Seeded search over ownership histories (both ends of all six containment relations, subtree moves across IRs, constructor arguments, failing bulk operations, collections and lazy views of collections as arguments, loaded / deep-copied / pickled twins with equal UUIDs, collections of 300 members, set-iteration order permuted by the scheduler). After every step every IR's get_by_uuid is compared with the reachable set computed by walking the public collections. Exploration is the right level: the property quantifies over histories, which can only be sampled.",
     ),
     "C04": dict(
         section="3/C04",
@@ -43,8 +43,8 @@ CHECKS = {
     ),
     "C01": dict(
         section="3/C01",
-        technique="deterministic simulation: save / load / crash-restart as generated operations inside seeded edit histories over a simulated disk; loaded IR vs model snapshot, deep_eq both ways, re-save equality",
-        text="save, load (twin IR) and crash-restart (every object dropped, latest file of every saved IR reloaded, model rolled back to the snapshot of that save) are placed by the scheduler at arbitrary points of edit histories over several generations, through the path and the stream API of a simulated disk (fault-free configuration). At every load of a file saved from a self-contained state the loaded IR is compared with the snapshot node by node, deep_eq is evaluated both ways against the live original, and the loaded IR is saved again and compared field by field.",
+        technique="deterministic simulation: save / load / crash-restart and write / read faults as generated operations inside seeded edit histories over a simulated disk; loaded IR vs model snapshot, deep_eq both ways, re-save equality",
+        text="save, load (twin IR) and crash-restart (every object dropped, latest file of every saved IR reloaded, model rolled back to the snapshot of that save) are placed by the scheduler at arbitrary points of edit histories over several generations, through the stream API of a simulated disk and the path API on real files; write errors (stream failing after k bytes, ENOSPC from /dev/full) and read errors are injected as operations of their own: a failing save must not report success, a failing load must not return an IR. At every load of a file saved from a self-contained state the loaded IR is compared with the snapshot node by node, deep_eq is evaluated both ways against the live original, and the loaded IR is saved again and compared field by field.",
     ),
     "C02": dict(
         section="3/C02",
@@ -61,12 +61,12 @@ CHECKS = {
         section="3/C08",
         technique="deterministic simulation, two-party: every table gtirb writes to the simulated disk is decoded / byte-compared by an independent reference codec; every table the peer writes is decoded by gtirb at a scheduled time",
         text="(a) bytes gtirb writes decode under the reference codec (written from AuxData.hpp/AuxData.md, sharing no code with serialization.py) to the model value, byte-identical for types without set/mapping; (b) peer-written tables (reference encoder, permuted element order, repeated elements) decode under gtirb to the model value; (c) Java clause: the repository's Java codecs decode gtirb's bytes to the model value and gtirb decodes Java's re-encoding to the model value.",
-        note="value -> bytes is a pure function; the simulation contributes the two-party setting (who wrote the bytes, when they are decoded). The repository's Java codecs ARE executed (gsim/javastage.py: javac-built from the working tree with a stub for com.google.protobuf.ByteString, batch driver java/Driver.java) as a differential stage outside the simulator, for the types Java supports (no double/Addr, tuples <= 5, variants of 2-3); if javac is missing the stage reports 'unavailable' in evidence and claims nothing. Trusted: refcodec (written from AuxData.hpp), the Java driver's rendering.",
+        note="value -> bytes is a pure function; the simulation contributes the two-party setting (who wrote the bytes, when they are decoded). The repository's Java codecs ARE executed (gsim/javastage.py: javac-built from the working tree with a stub for com.google.protobuf.ByteString, batch driver java/Driver.java) as a differential stage outside the simulator, for the types Java supports (no double/Addr, tuples <= 5, variants of 2, 3 and 11 alternatives); if javac is missing the stage reports 'unavailable' in evidence, prints a NOTE and claims nothing; Java sources that do not compile end the check with HARNESS-ERROR. Trusted: refcodec (written from AuxData.hpp), the Java driver's rendering.",
     ),
     "C09": dict(
         section="3/C09",
         technique="deterministic simulation + fault enumeration: identity oracle at every load/restart of own and peer files; every 4th run enumerates single dangling / ill-typed references of each kind on a valid file and requires DeserializationError",
-        text="Positive direction: after every load the containment walk gives uuid -> object and every referent, entry point, edge endpoint (three access paths) and expression symbol must be that very object; AuxData UUID/Offset entries are read at a scheduled time. Negative direction: structural single faults (dangling, ill-typed) for each of the reference kinds -> DeserializationError.",
+        text="Positive direction: after every load the containment walk gives uuid -> object and every referent, entry point, edge endpoint (three access paths) and expression symbol must be that very object; AuxData UUID/Offset entries are read at a scheduled time. Negative direction: structural single faults (dangling incl. near-miss / nil UUIDs, ill-typed, also with the offending UUID listed as a CFG vertex) for each of the reference kinds -> DeserializationError.",
     ),
     "C10": dict(
         section="3/C10",
@@ -102,7 +102,7 @@ CHECKS = {
     "C16": dict(
         section="3/C16",
         technique="deterministic simulation: collection-call histories run side by side with built-in list/set/dict (refinement), including failing calls and iterables that fail midway",
-        text="Every owning collection is shadowed by the corresponding built-in holding labels; return value, exception class, resulting contents and untouched ownership are compared after each call; a failed call must leave the C03/C04 invariants intact.",
+        text="Every owning collection is shadowed by the corresponding built-in holding labels; return value, exception class, resulting contents and untouched ownership are compared after each call; a failed call (missing element, bad index, index that is no integer, iterable failing midway, key that is no offset) must leave the C03/C04 invariants intact; returned plain values are scribbled on; arguments also alias the collection itself or walk another owning collection lazily.",
     ),
 }
 
@@ -124,7 +124,7 @@ def main():
         "setup_cmd": "python3 tools/setup.py",
         "hooks": {
             "guard": "GTIRB_VERIF",
-            "enable": "no source hooks: checks build python/gtirb from /repo's working tree into /verif/.build and patch that copy from outside (uuid4 seam, SetWrapper.__iter__ order seam, open() in gtirb.ir, LazyIntervalTree.get probe)",
+            "enable": "no source hooks: checks build python/gtirb from /repo's working tree into /verif/.build and patch that copy from outside (uuid4 seam, SetWrapper.__iter__ order seam, Node.__hash__ by UUID, LazyIntervalTree.get probe); files go through stream objects or real paths under the build directory",
             "baseline_off_cmd": "cd /repo && /venv/bin/python -m pytest -ra -q -p no:cacheprovider --timeout=900 --continue-on-collection-errors",
             "source_commits": [],
             "add_only": True,
@@ -139,7 +139,7 @@ def main():
         ],
         "checks": [],
         "not_applicable": list(NOT_APPLICABLE),
-        "notes": "All checks: ./check <id> --tier quick|thorough; exit 0 clean, 1 with 'VIOLATION property=<id> replay=<path>', 2 HARNESS-ERROR (no verdict). Replays: ./check <id> --replay <path>. Known findings: known_findings.json. tools/determinism.py and tools/mutants.py are the self-validation tools.",
+        "notes": "All checks: ./check <id> --tier quick|thorough; exit 0 clean, 1 with 'VIOLATION property=<id> replay=<path>', 2 HARNESS-ERROR (no verdict). Replays: ./check <id> --replay <path>. Known findings: known_findings.json. tools/determinism.py, tools/mutants.py and tools/seeded.py (214 independently seeded changes under seeded/) are the self-validation tools.",
     }
     all_ids = ["C%02d" % i for i in range(1, 20)]
     for pid in all_ids:
